@@ -2557,6 +2557,8 @@ class EdgeQLSourceGenerator(codegen.SourceGenerator):
             self.write(node.scope.to_edgeql())
             self._write_keywords(' RESET ')
         self.visit(node.name)
+        if node.where:
+            self.write(' ')
         self._visit_filter(node)
 
     def visit_SessionSetAliasDecl(
